@@ -124,6 +124,10 @@ def case_history(ctx, case):
             detail = dict(after=what, instance=type(obj).__name__, trace=trace[-10:])
             check(obj.tag == tag, f'instance of {type(obj).__name__} has tag {obj.tag!r}, expected {tag!r}', **detail)
             for t in T:
+                if rng.random() < 0.05:
+                    from vlib import reps
+                    check(reps.deprecated_call(obj.getComponent, t) is comps.get(t), f'deprecated getComponent() on an instance of {type(obj).__name__} differs', **detail)
+                    ctx.count('deprecated_alias_calls')
                 check(obj[t] is comps.get(t) and (t in obj) == (t in comps),
                       f'instance of {type(obj).__name__}: own component {t.__name__} changed by a class-level operation', **detail)
             n_own = len(obj.components) if isinstance(obj, core.Environment) else len(obj)   # len(environment) counts agents
